@@ -83,6 +83,7 @@ def run_unit(idx, timeout_s, second):
         }
         if ob.status in ("sat", "candidate") and not ob.expect_sat:
             r["witness"] = solve.witness(ob)
+            r["stages"] = getattr(ob, "stages", [])
             r["goal"] = str(ob.goal)[:1500]
             r["trace"] = getattr(ob, "trace", [])
         res.append(r)
@@ -255,7 +256,7 @@ def main():
         rep = {"property": prop, "obligation": ob["full"], "status": ob["status"], "backend": ob["backend"],
                "function": r["unit"] if r else None, "self_cls": r["self_cls"] if r else None,
                "witness": ob.get("witness"), "goal": ob.get("goal"), "path_trace": ob.get("trace"),
-               "solver_output": ob["status"]}
+               "solver_output": ob["status"], "solver_stages": ob.get("stages", [])}
         confirmed = None
         if r is not None:
             confirmed, detail = native_replay(prop, r, ob, rep)
